@@ -7,7 +7,7 @@ def build(ctx):
     return ctx.compile("xml_h", [ctx.verif("harness/xml_h.cpp")] + [ctx.repo(s) for s in SRC])
 
 def params(tier):
-    return dict(parse_len=5, valtok=2, texttok=2, sizes=300) if tier == "quick" else dict(parse_len=6, valtok=2, texttok=3, sizes=1200)
+    return dict(parse_len=5, valtok=2, texttok=2, sizes=300, reuse=(2, 3)) if tier == "quick" else dict(parse_len=6, valtok=2, texttok=3, sizes=1200, reuse=(3, 3))
 
 def run(ctx):
     from checks import handles
@@ -19,6 +19,7 @@ def run(ctx):
     ctx.run_shards(b, ["--mode", "sizes", "--len", str(p["sizes"])], label="xml sizes")
     ctx.run_shards(b, ["--mode", "comments", "--valtok", "1", "--texttok", "1"], label="xml comments")
     ctx.run_shards(b, ["--mode", "parse", "--len", str(p["parse_len"])], label="xml parse")
+    ctx.run_shards(b, ["--mode", "reuse", "--len", str(p["reuse"][0]), "--len2", str(p["reuse"][1])], label="xml parser reuse")
     handles.run_xml(ctx)
     c = ctx.counters
     ev = sum(c.get(k, 0) for k in ("parse_inputs", "deep_inputs", "roundtrip_trees", "comment_documents", "size_documents", "byte_documents", "prefix_inputs")) + c.get("transitions", 0)
@@ -29,9 +30,9 @@ def run(ctx):
                    "&#65; &amp;}, non-blank non-adjacent text of <= %d tokens over {a SP / = \" & < LF}; every byte prefix of every serialised tree and of every document with a multi-line comment (truncation inside delimiters, entities, quoted values); bytes: every 7-bit character XML allows, alone / between letters / doubled, as attribute value and as text; sizes: attribute values and texts a^{0,1} c^n z^{0,1,3} for every "
                    "escaped character c and n = 0..%d (every reallocation point of the escaper); comments: every tree serialised by the harness with "
                    "one of three comment forms at every token boundary (white-space separated inside tags) and processing instructions with a line break "
-                   "before the root; plus the Xml::Variant handle histories (copy, assignment, toElement() on shared values)"
-                   % (p["parse_len"], p["valtok"], p["texttok"], p["sizes"]),
-           "exhaustive": True, "bounds": p, "handle_states": int(c.get("states", 0)),
+                   "before the root; parser reuse: every pair (first document of <= %d tokens, second of <= %d tokens) parsed by one Xml::Parser into one Element - verdict, tree, error line/column/text of the second parse equal those of a fresh parser; plus the Xml::Variant handle histories (copy, assignment, toElement() on shared values)"
+                   % (p["parse_len"], p["valtok"], p["texttok"], p["sizes"], p["reuse"][0], p["reuse"][1]),
+           "exhaustive": True, "bounds": p, "handle_states": int(c.get("states", 0)), "reuse_pairs": int(c.get("reuse_pairs", 0)),
            "parse_accepted": int(c.get("parse_accepted", 0)), "parse_rejected": int(c.get("parse_rejected", 0))}
     return ctx.finish("exploration", cov, ["inputs are NUL-terminated", "comments inside tags are separated from names by white space"], tags=["C16"])
 
